@@ -51,3 +51,28 @@ CLAIMED["C12"] = (
     "Coq/Flocq proof: monotonicity of the four float operations and of CPython's timedelta rounding (no accuracy needed), induction over the chained tempo list; strictness from the accuracy lemma + per-run vm_compute correspondence",
     "Theorems dur_mono/dur_nonneg (a segment's duration is monotone in the tick count for EVERY tempo and resolution, sub-microsecond ticks included), C12_mono (all well-formed tempo lists, all pairs a <= b), C12_strict (n*resolution <= 3*10^10 at every tempo), C12_equal_ticks, C12_events (events of any tracks), C12_note (end never before start), C12_chart (through from_file).",
     MODEL_NOTE + FLOAT_NOTE)
+CLAIMED["C06"] = (
+    "Coq proof by induction over the section list (scanner-state invariant), over lines/characters (splitlines, universal newlines), and over the routing fold (finite-map characterisation) + per-run tie of header regex / 40 names / required tags + vm_compute correspondence incl. real files read by path",
+    "Theorems C06_frame_gen/C06_frame (each section's parser receives exactly the body lines between its braces), C06_split (LF = CRLF), C06_bom (BOM + CRLF by path = LF text), C06_route_fixed (Song -> metadata, SyncTrack -> sync, Events -> global events), "
+    "C06_route_tracks/C06_header (each of the 40 headers feeds the track stored under exactly that key and labelled with it), C06_route_ok, C06_perm (independence of section order, tracks as a finite map, logs as a multiset), C06_unknown/C06_unknown_chart (unknown sections reported once and ignored), C06_required (ValueError).",
+    MODEL_NOTE + REGEX_NOTE + " Partial: UTF-8 byte decoding by the codec is not modelled (the model starts at code points); it is exercised by the correspondence on real files.")
+CLAIMED["C10"] = (
+    "Coq proof: language inversion of the 24 reference field regexes, greedy-optional-quote + lazy-group extractor correctness, prefix argument for pairwise disjointness (all strings), permutation lemma + per-run tie (regexes, kinds, defaults, lookup order) + vm_compute correspondence",
+    "Theorems C10_only (exact language of every field), C10_str_verbatim (one pair of quotes removed, inner text verbatim incl. quotes, '=', field names, blanks, non-ASCII), C10_int, C10_player2/C10_player2_capture, C10_disjoint (no string is claimed by two fields), C10_field/C10_foreign_line (a field's value depends only on its own accepted line), C10_perm (order independence), C10_defaults, C10_required (MissingRequiredField), C10_shape.",
+    MODEL_NOTE + REGEX_NOTE)
+CLAIMED["C13"] = (
+    "Coq proof from the routing characterisation (finite-map lookups, selection filter commutes with the routing fold) + per-run tie + vm_compute correspondence relating restricted and unrestricted parses of the implementation",
+    "Theorems C13_select (a restricted parse returns exactly the selected existing tracks, each equal to the unrestricted one, other parts unchanged, no empty instrument entry), C13_empty, C13_select_ok (succeeds iff every SELECTED section builds: unselected invalid sections never matter), C13_noninterf (replacing one section's body never affects another key), C13_unselected_partial (+ C13_unselected_refuted for degenerate configurations).",
+    MODEL_NOTE)
+CLAIMED["C15"] = (
+    "Coq proof following the model's evaluation order through every validator (induction over the tempo list; Flocq bounds exclude ZeroDivision/Overflow before ValueError) + vm_compute correspondence over single corruptions at every position",
+    "Theorems C15_never_ok (non-positive resolution, no tempo, first tempo not at tick 0, ticks not strictly increasing: never a tempo list), C15_reject/C15_reject_R (the error is ValueError), C15_ts (no time signature at tick 0), C15_query (any returned time is governed by a strictly positive tempo, at a tick at or after it, with positive resolution), C15_zero_tempo, C15_negative.",
+    MODEL_NOTE + FLOAT_NOTE)
+CLAIMED["C16"] = (
+    "Coq proof: case analysis over the call forms + Flocq lemma (length in seconds <= 0 iff microsecond length <= 0; exact int->float conversions) + vm_compute correspondence judged on the implementation's own chart",
+    "Theorems C16_main (for every consistent call form: result = count of notes with start in the closed interval / length in seconds as the two float divisions Python performs; tick bound = tempo-map time; omitted start = 0, omitted end = last note end; ValueError for non-positive length), C16_absent, C16_noteless, C16_tick_vs_time, C16_rate_zero.",
+    MODEL_NOTE + FLOAT_NOTE + " Interpretation I3: a tick mixed with a timestamp hits the source's assert and is outside the property.")
+CLAIMED["C20"] = (
+    "Coq proof: abstract interpreter of the import protocol over import programs regenerated from the source by ast; invariant = canonical state of a dependency-closed set, complete enumeration of reachable states by vm_compute lifted with forallb_forall, induction over the import sequence + fresh-interpreter correspondence",
+    "Theorems C20 (every sequence of imports of the 13 modules succeeds; every loaded module has exactly the namespace it has as first import), C20_first, C20_loaded_set, C20_same_names / C20_permutation (any two orders over the same modules end in the same state: same names bound to the same objects), C20_same_prediction.",
+    "Trusted: Coq kernel with vm_compute; tools/extract_imports.py (fail-closed ast translator of module-level statements); that Model/Imports.v is CPython's import protocol for the statement forms the package uses — validated on every run by fresh-interpreter observations of all first imports, ordered pairs and permutations (tools/c20_impl.py). Partial: the theorem is about the model of the import system.")
